@@ -170,6 +170,11 @@ class BaseVersion(object):
         # contain a :.
         if m.group("epoch") is None and ":" in m.group("upstream_version"):
             raise ValueError("Invalid version string %r" % version)
+        # If there is no revision ("...-1"), then the upstream version can not
+        # contain a -.
+        if (m.group("debian_revision") is None
+                and "-" in m.group("upstream_version")):
+            raise ValueError("Invalid version string %r" % version)
 
         # pylint: disable=attribute-defined-outside-init
         self.__full_version = version  # pylint: disable = unused-private-member
